@@ -222,6 +222,7 @@ func (s *Solver) Model(vars []*term.Term) (map[string]uint64, error) {
 	}
 	var sb strings.Builder
 	sb.WriteString("(get-value (")
+	asked := 0
 	for _, v := range vars {
 		// variables never sent to the solver are unconstrained: declare them
 		var d strings.Builder
@@ -233,6 +234,10 @@ func (s *Solver) Model(vars []*term.Term) (map[string]uint64, error) {
 		}
 		sb.WriteString(v.Name)
 		sb.WriteByte(' ')
+		asked++
+	}
+	if asked == 0 {
+		return m, nil
 	}
 	sb.WriteString("))\n")
 	s.send(sb.String())
